@@ -15,6 +15,8 @@ ENGINES = [
      "kind_free_text": "generated event histories executed on the real scheduler.Cell under a virtual clock; reference-model oracles after every cycle; forked probe cycles"},
     {"name": "master-zk", "path": "vf/master", "serves_properties": ["C01", "C03", "C04", "C05", "C06", "C07", "C08", "C09", "C10", "C11"],
      "kind_free_text": "real Master/Loader on ZkBackend on an in-memory ZooKeeper (vf/zkfake.py); events produced with masterapi; fork-based crash cuts and restarts"},
+    {"name": "node-cache", "path": "vf/checks/c12.py", "serves_properties": ["C12"],
+     "kind_free_text": "real EventMgr on a temp root + in-memory ZooKeeper; sys.monitoring LINE failpoints and syscall-boundary hooks"},
     {"name": "trace-archive", "path": "vf/checks/c18.py", "serves_properties": ["C18"],
      "kind_free_text": "real trace archiver on the in-memory ZooKeeper, crash switch at every write, sqlite snapshots opened by the oracle"},
     {"name": "codecs", "path": "vf/checks/c15.py", "serves_properties": ["C15"],
@@ -78,4 +80,8 @@ CHECKS['C18'] = dict(engine='trace-archive', category='fault_enumeration', desig
                      note="Trusted base: in-memory ZooKeeper fake with crash switch and write log; snapshots are decompressed and opened with sqlite by the harness; virtual clock; node mtimes set by the harness.",
                      text="Every ZooKeeper write of a full archiving run (cleanup_trace, cleanup_finished, cleanup_server_trace, cleanup_*_history) over generated populations is a crash point: at each cut every previously live event/record is still live or a row of a snapshot, young/scheduled ones are live, pruning removed only the oldest snapshots.",
                      technique="runtime monitoring with fault injection: crash at every storage write, conservation oracle over live nodes + opened sqlite snapshots")
+CHECKS['C12'] = dict(engine='node-cache', category='fault_enumeration', design_ref='DESIGN 4 C12',
+                     note="Trusted base: in-memory ZooKeeper fake, real filesystem in a temp dir; sys.monitoring LINE events and wrappers of os.replace/os.fchmod/NamedTemporaryFile as failpoints; the directory is read from inside the hook without flushing the writer's buffers (what another process or a crash at that instant sees).",
+                     text="The real EventMgr._synchronize converges arbitrary generated cache states to the placement; every statement and syscall boundary of the real write path is a point where the directory is read as a crash/reader would see it and, in a second pass, where an I/O error is injected (plus disk-full in the middle of the manifest).",
+                     technique="runtime monitoring with fault injection: reader/crash view and injected I/O errors at every statement and syscall boundary of the write path")
 NOT_APPLICABLE = {}
